@@ -13,6 +13,14 @@ use super::super::types::IrType;
 use super::super::types::Mutability;
 use super::{EmitError, IrEmitter};
 
+/// Iterate the keys of a borrowed dict: by value for `Copy` key types, by reference otherwise (like list items).
+fn dict_keys_iter(iter: &TokenStream, key_ty: &IrType) -> TokenStream {
+    match key_ty {
+        IrType::Int | IrType::Float | IrType::Bool => quote! { #iter.keys().copied() },
+        _ => quote! { #iter.keys() },
+    }
+}
+
 /// Determine whether a `for` loop body requires mutable iteration of the loop variable.
 ///
 /// We use this as a *codegen heuristic* to avoid emitting `.iter_mut()` when the loop body performs no mutation of the
@@ -206,9 +214,11 @@ impl<'a> IrEmitter<'a> {
                                     _ => quote! { #iter.iter_mut() },
                                 }
                             }
-                            IrType::Set(_) | IrType::Dict(_, _) => {
+                            IrType::Set(_) => {
                                 quote! { #iter.iter_mut() }
                             }
+                            // Iterating a dict yields its keys
+                            IrType::Dict(key_ty, _) => dict_keys_iter(&iter, key_ty),
                             _ => quote! { #iter },
                         }
                     }
@@ -220,9 +230,10 @@ impl<'a> IrEmitter<'a> {
                             }
                             _ => quote! { #iter.iter() },
                         },
-                        IrType::Set(_) | IrType::Dict(_, _) => {
+                        IrType::Set(_) => {
                             quote! { #iter.iter() }
                         }
+                        IrType::Dict(key_ty, _) => dict_keys_iter(&iter, key_ty),
                         _ => quote! { #iter },
                     },
                     IrType::List(elem_ty) => {
@@ -246,11 +257,19 @@ impl<'a> IrEmitter<'a> {
                             quote! { #iter }
                         }
                     }
-                    IrType::Set(_) | IrType::Dict(_, _) => {
+                    IrType::Set(_) => {
                         if let IrExprKind::Var { .. } = &iterable.kind {
                             quote! { &#iter }
                         } else {
                             quote! { #iter }
+                        }
+                    }
+                    // Iterating a dict yields its keys (Python semantics), not (key, value) pairs
+                    IrType::Dict(key_ty, _) => {
+                        if let IrExprKind::Var { .. } = &iterable.kind {
+                            dict_keys_iter(&iter, key_ty)
+                        } else {
+                            quote! { #iter.into_keys() }
                         }
                     }
                     _ => quote! { #iter },
